@@ -975,6 +975,13 @@ func (c *Client) backwards(
 		verifiedHeader = interimHeader
 	}
 
+	// The hash chain ends at the height of newHeader; the header that the
+	// caller is going to trust must be the one the chain leads to.
+	if !bytes.Equal(verifiedHeader.Hash(), newHeader.Hash()) {
+		return ErrInvalidHeader{fmt.Errorf("header %X at height %d is not the one the trusted header %X chains back to",
+			newHeader.Hash(), newHeader.Height, verifiedHeader.Hash())}
+	}
+
 	return nil
 }
 
